@@ -51,6 +51,17 @@ __published:
   void operator ++ ();
 };
 
+// members of function type: the builder hands out a type index for the function type and then drops it
+typedef void DeclinedCallback(int);
+struct Callbacks {
+__published:
+  Callbacks();
+  void (*on_event)();
+  DeclinedCallback *on_click;
+  int (Bag::*member_fn)(int) const;
+  int user_data;
+};
+
 __begin_publish
 extern int declined_arr[];
 extern FreeTmpl<int> declined_tmpl_var;
